@@ -31,7 +31,7 @@ def main():
     summary, tot, samples, exh = sched.run_passes(rep, binary, passes, total)
     try:
         eb = enumlib.build("clientlib-enum", "client/lib", files("clientlib"))
-        for test, shards in (("TestVerifEnumC15", None), ("TestVerifEnumC15Close", 4)):
+        for test, shards in (("TestVerifEnumC15", None), ("TestVerifEnumC15Close", 4), ("TestVerifEnumC15Silent", 3)):
             res = enumlib.run(eb, test, tier, 300, nshards=shards)
             for f in res["findings"]:
                 rep.finding(f["sig"], f["msg"], {"input": f["input"], "kind": "constructor / Close case (real pion, real KCP+smux)"})
